@@ -935,6 +935,7 @@ func (r *Raft) Barrier(timeout time.Duration) Future {
 func (r *Raft) VerifyLeader() Future {
 	metrics.IncrCounter([]string{"raft", "verify_leader"}, 1)
 	verifyFuture := &verifyFuture{}
+	verifyFuture.ShutdownCh = r.shutdownCh
 	verifyFuture.init()
 	select {
 	case <-r.shutdownCh:
